@@ -272,12 +272,20 @@ func needsC14NEscape(n *Node) bool {
 	return found
 }
 
+// lastKeyVer: the key version the storage handed to the task's last call of op; when the task never asked (e.g. because the
+// library answered from a cache), the version that was current during the whole request, or -1 when it rotated meanwhile.
 func lastKeyVer(t *Task, op string) int {
 	cs := callsOf(t, op)
-	if len(cs) == 0 {
-		return -1
+	if len(cs) > 0 {
+		return cs[len(cs)-1].KeyVer
 	}
-	return cs[len(cs)-1].KeyVer
+	if op == "GetResponseSigningKey" && t.RespKeyVer0 == t.RespKeyVer1 {
+		return t.RespKeyVer0
+	}
+	if op == "GetMetadataSigningKey" && t.MetaKeyVer0 == t.MetaKeyVer1 {
+		return t.MetaKeyVer0
+	}
+	return -1
 }
 
 func oracleC04(r *Result) {
